@@ -4,11 +4,13 @@ Interface used by vlib.check: see props/c13.py.
 
 Case JSON (one of):
   {"kind":"period","lims":[{"period","quota","align","pfx"}...],"t0":ms,"ops":[
-       {"op":"take","lim","key","down"} | {"op":"tick","ms"} | {"op":"conc","lim","key","g"} | {"op":"replace"}]}
+       {"op":"take","lim","key","down","cut"} | {"op":"tick","ms"} | {"op":"conc","lim","key","g"} | {"op":"replace"}]}
   {"kind":"token","rate","burst","insts":1|2,"t0":ms,"ops":[
-       {"op":"allow","inst","n","ctx","skew"} | {"op":"tick","ms"} | {"op":"conc","inst","g","n"} |
+       {"op":"allow","inst","n","ctx","skew"} | {"op":"tick","ms"} | {"op":"conc","inst","g","n","slow"} |
        {"op":"fault","eval","ping","hard","hang"} | {"op":"replace","eval","ping"} |
        {"op":"sleep","ms"}  (a tick that also takes the same real time: the monitor keeps pinging)]}
+  take cut: the caller's context is cancelled by a pre-hook at the moment the take reaches the server.
+  conc slow: the G script calls wait for each other in a pre-hook (all in flight at once), then run.
   allow ctx: 0 live, 1 cancelled, 2 deadline passed, 3 deadline (40 ms) expires while the EVAL is in flight
   (pre-hook parks the EVAL; it is dropped afterwards). fault hang: every command is accepted and never answered.
   token "rto": go-redis read/write/dial timeout in ms for this case (hang cases). period "clk":"real","skew":s:
@@ -57,7 +59,10 @@ RULE = ("period cases: 1-2 limiters (period 1..60 s, quota 0..8, 25% Align()), 1
         "(quick: two with 200 ms client timeouts and one with the 3 s defaults = about 12 s for the request that runs into it, driven in a process of its own next to the others; thorough: four short and one default: the server accepts "
         "every command and never answers), with deadlines expiring while the EVAL is in flight on a healthy Redis (also 3% "
         "of the random requests) and with window-edge histories on servers one hour ahead of / behind the callers' wall "
-        "clock (60% of the random period cases run on such a skewed real clock: 0, +-7 s, +-1 h, +-400 d); the server that comes back is in 40% of the recoveries a REPLACEMENT (old miniredis "
+        "clock, with 8/16/32 concurrent callers whose script calls are all in flight at once on a slow healthy Redis (pre-hook "
+        "barrier; also 30% of the random concurrent ops), with takes whose caller's context is cancelled at the moment the "
+        "take reaches the server (first take of a window; also 4% of the random takes) and with staircase histories (a too "
+        "large request refused, smaller fitting ones in the same second granted; also 5% of the random cases) (60% of the random period cases run on such a skewed real clock: 0, +-7 s, +-1 h, +-400 d); the server that comes back is in 40% of the recoveries a REPLACEMENT (old miniredis "
         "closed, a new one started on the same address: empty data and script cache), also swapped in between calls of a "
         "healthy limiter (15% of the non-outage token cases, 20% of the period cases); 30% of the token cases run two "
         "TokenLimiter instances on the one key, 18% of the period cases two PeriodLimit instances on the same keys; non-trivial = (period) a HitQuota/OverQuota and a restart after expiry "
@@ -111,7 +116,10 @@ def _period_case(rng, tier):
         if r < 0.68:
             down = rng.random() < 0.04 and downs < 3
             downs += down
-            ops.append({"op": "take", "lim": lim, "key": rng.randrange(nkeys), "down": bool(down)})
+            op = {"op": "take", "lim": lim, "key": rng.randrange(nkeys), "down": bool(down)}
+            if not down and rng.random() < 0.04:
+                op["cut"] = True       # the caller's context is cancelled when the take reaches the server
+            ops.append(op)
         elif r < 0.94:
             ms = rng.choice([0, 1, 999, 1000, per - 1000, per - 1, per, per + 1, per + 1000,
                              rng.randint(0, per * 3 // 2), rng.randint(0, 1500)])
@@ -269,7 +277,11 @@ def _token_case(rng, tier, outage=None):
         else:
             if (alive[inst] and (not eup or script_fails)) or (not eup and pup):
                 continue
-            ops.append({"op": "conc", "inst": inst, "g": rng.randint(2, 8), "n": rng.choice([1, 1, 2])})
+            op = {"op": "conc", "inst": inst, "g": rng.randint(2, 8), "n": rng.choice([1, 1, 2])}
+            if alive[inst] and eup and pup and not script_fails and rng.random() < 0.3:
+                op["slow"] = True      # all G script calls in flight at once on a slow server
+                op["g"] = rng.choice([8, 12, 16, 32])
+            ops.append(op)
             after()
     return {"kind": "token", "rate": rate, "burst": burst, "insts": insts, "t0": T0_BASE + rng.randrange(10 ** 9), "ops": ops}
 
@@ -305,6 +317,69 @@ def _long_outage_case(rng, tier, total_ms):
     return {"kind": "token", "rate": rate, "burst": burst, "insts": insts, "t0": T0_BASE + rng.randrange(10 ** 9), "ops": ops}
 
 
+def _slow_conc_case(rng, g):
+    """directed: g concurrent callers whose script calls are all in flight at once on a slow (healthy) Redis:
+    nobody may be served by the in-process bucket, the granted total is the Redis bucket's (<= burst + rate*t)"""
+    rate, burst = rng.choice([(1, 3), (2, 5), (5, 10), (2, 3)])
+    insts = rng.choice([1, 2])
+    cc = lambda n=1: {"op": "conc", "inst": rng.randrange(insts), "g": g, "n": n, "slow": True}
+    al = lambda n: {"op": "allow", "inst": rng.randrange(insts), "n": n, "ctx": 0, "skew": 0}
+    ops = [cc(), al(1), {"op": "tick", "ms": 1000}, cc(), {"op": "tick", "ms": 400}, cc(2), {"op": "tick", "ms": 600}, cc(), al(1)]
+    return {"kind": "token", "rate": rate, "burst": burst, "insts": insts, "t0": T0_BASE + rng.randrange(10 ** 9), "ops": ops}
+
+
+def _cut_case(rng):
+    """directed: the caller of the FIRST take of a window gives up exactly when the take reaches the server;
+    count and expiry are set atomically, so the window still ends after period seconds and the codes restart"""
+    period, quota = rng.choice([(1, 2), (2, 2), (3, 3), (2, 3)])
+    tk = lambda cut=False: dict({"op": "take", "lim": 0, "key": 0, "down": False}, **({"cut": True} if cut else {}))
+    ops = [tk(True)] + [tk() for _ in range(quota)]
+    ops += [{"op": "tick", "ms": period * 1000 + 1000}] + [tk() for _ in range(quota + 1)]
+    ops += [{"op": "tick", "ms": period * 1000}, tk(True), {"op": "tick", "ms": period * 1000 - 1}, tk(), {"op": "tick", "ms": 1}]
+    ops += [tk() for _ in range(quota + 1)]
+    case = {"kind": "period", "lims": [{"period": period, "quota": quota, "align": False, "pfx": 0}],
+            "t0": T0_BASE + rng.randrange(10 ** 9), "ops": ops}
+    if rng.random() < 0.5:
+        case["clk"], case["skew"] = "real", rng.choice([0, 3600, -3600])
+    return case
+
+
+def _stair_case(rng, outage=False):
+    """mixed request sizes within one second, chosen against a reference bucket kept here: a request just too
+    large is followed by smaller ones that fit (granted), then by one that no longer fits (refused), ..."""
+    rate, burst = rng.choice([(1, 5), (2, 8), (5, 10), (3, 20), (10, 10), (1, 2), (7, 15)])
+    insts = rng.choice([1, 1, 2])
+    t = T0_BASE + rng.randrange(10 ** 9)
+    level, last = burst, t // 1000
+    ops = []
+    al = lambda n: {"op": "allow", "inst": rng.randrange(insts), "n": n, "ctx": 0, "skew": 0}
+
+    def req(n):
+        nonlocal level, last
+        sec = t // 1000
+        level, last = min(burst, level + (sec - last) * rate), sec
+        if n <= level:
+            level -= n
+        ops.append(al(n))
+
+    for _ in range(rng.randint(3, 6)):
+        sec = t // 1000
+        cur = min(burst, level + (sec - last) * rate)
+        req(cur + rng.choice([1, 1, 2]))                       # too large: refused
+        for _ in range(rng.randint(1, 4)):
+            cur = min(burst, level + (t // 1000 - last) * rate)
+            pick = rng.random()
+            if cur >= 1 and pick < 0.6:
+                req(rng.randint(max(1, cur // 2), cur))      # fits: must be granted although a larger one was refused
+            else:
+                req(cur + 1)                                   # still too large
+        ms = rng.choice([0, 1, 200, 999, 1000, 1000, 1500, 2000, 1000 - t % 1000 - 1, 1000 - t % 1000])
+        t += ms
+        ops.append({"op": "tick", "ms": ms})
+    return {"kind": "token", "rate": rate, "burst": burst, "insts": insts, "t0": t - sum(o["ms"] for o in ops if o["op"] == "tick"),
+            "ops": ops}
+
+
 def _fixed_cases(rng, tier):
     """cases every run starts with (real-time outages are too expensive to leave to chance)"""
     if tier == "thorough":
@@ -319,6 +394,8 @@ def _fixed_cases(rng, tier):
     cases += [_hang_case(rng, rto) for rto in hangs]
     for _ in range(k):
         cases += [_inflight_case(rng), _skew_case(rng, 3600), _skew_case(rng, -3600)]
+        cases += [_slow_conc_case(rng, g) for g in (8, 16, 32)]
+        cases += [_cut_case(rng), _cut_case(rng), _stair_case(rng), _stair_case(rng)]
     return cases
 
 
@@ -326,8 +403,11 @@ def generate(rng, tier, n):
     cases = _fixed_cases(rng, tier)
     n = max(0, n - len(cases))
     for _ in range(n):
-        if rng.random() < 0.45:
+        r = rng.random()
+        if r < 0.43:
             cases.append(_period_case(rng, tier))
+        elif r < 0.48:
+            cases.append(_stair_case(rng))
         else:
             cases.append(_token_case(rng, tier))
     return cases
@@ -447,8 +527,8 @@ def encode(case, obs):
             elif op["op"] == "replace":
                 ops.append("XPReplace")
             elif op["op"] == "take":
-                ops.append("XPTake %s %s %s %s %s %s %s %s" % (
-                    cnat(op["lim"]), cnat(op["key"]), cbool(op.get("down", False)), cZ(_window(case["lims"][op["lim"]], o)),
+                ops.append("XPTake %s %s %s %s %s %s %s %s %s" % (
+                    cnat(op["lim"]), cnat(op["key"]), cbool(op.get("down", False)), cbool(op.get("cut", False)), cZ(_window(case["lims"][op["lim"]], o)),
                     cZ(o["code"]), cZ(o["err"]), _ent(o["ent"]), clist([cZ(x) for x in o["exp"]])))
             else:
                 ops.append("XPConc %s %s %s %s %s %s %s %s" % (
@@ -521,6 +601,8 @@ def bucket(case, obs):
                 out.append("code:%d" % o["code"])
                 if op.get("down"):
                     out.append("period:redis-failure")
+                if op.get("cut"):
+                    out.append("period:caller-gave-up-at-server(err=%d)" % o["err"])
         return out
     rate, burst = case["rate"], case["burst"]
     out.append("hyp:ttl-positive" if 2 * burst >= rate else "hyp:TTL-ZERO")
@@ -534,6 +616,8 @@ def bucket(case, obs):
         out.append("token:two-instances")
     for op, o in zip(case["ops"], obs["ops"]):
         out.append("top:" + op["op"])
+        if op["op"] == "conc" and op.get("slow"):
+            out.append("conc:slow-%d-callers" % op["g"])
         if op["op"] == "allow":
             if op.get("ctx", 0) == 3:
                 out.append("allow:deadline-in-flight")
